@@ -222,4 +222,16 @@ Proof.
   - destruct (Z.eqb_spec lim 0) as [E|E]; [exfalso; exact (H eq_refl E)|]. reflexivity.
 Qed.
 
+
+(* 15.5.4.11: what a function replaceValue returns is inserted as it is, whatever
+   $-patterns it contains (table 22 applies to a string replaceValue only) *)
+Theorem replace_fun_verbatim : forall li s ret i e c l,
+  exec_spec mt false 0 s = Some (Some (i, e, c), l) ->
+  replace_spec mt false li s (RFun ret) =
+    Some (OS (sub s 0 i ++ fn_repl ret c ++ skipn e s) :: fn_log s (i, e, c), li).
+Proof.
+  intros li s ret i e c l H. unfold replace_spec. rewrite H. cbn [build snd flat_map].
+  rewrite ?app_nil_r. reflexivity.
+Qed.
+
 End P.
